@@ -42,7 +42,100 @@ func rulesC01(c *Ctx) {
 	// coercions decode the stored bytes: a fixed-width decode may run only under a tag of that width
 	ruleDecodeWidth(c, "C01.DECODE")
 	ruleC01NullElem(c)
+	// the sorted scan keeps matching rows in a tree keyed by the row comparator: without the id
+	// tie-break rows that compare equal replace each other and matching entities are lost
+	ruleIdTieBreak(c, "C01.TIEBREAK", c.P.SSAFunc(c.P.Method("boltz", "BaseStore", "newRowComparator")))
+	ruleC01TimeEquality(c)
+	ruleC01NotOutermost(c)
 }
+
+// ruleC01TimeEquality: instants are compared with time.Time.Equal/Before/After, never with == or !=
+// (which also compare the location pointer and the monotonic reading).
+func ruleC01TimeEquality(c *Ctx) {
+	p := c.P
+	timeT := p.ExtNamed("time", "Time")
+	n, bad := 0, 0
+	for _, fn := range c.prodFuncs("ast", "boltz", "objectz") {
+		for _, b := range fn.Blocks {
+			for _, in := range b.Instrs {
+				bo, ok := in.(*ssa.BinOp)
+				if !ok || (bo.Op != token.EQL && bo.Op != token.NEQ) {
+					continue
+				}
+				if namedOf(bo.X.Type()) != timeT {
+					continue
+				}
+				if _, isPtr := bo.X.Type().(*types.Pointer); isPtr {
+					continue // pointer identity / nil tests
+				}
+				n++
+				bad++
+				c.Bad("C01.TIMEEQ", FnName(fn)+": "+bo.Op.String()+" on time.Time", p.Pos(bo.Pos()), "two time.Time values are compared with "+bo.Op.String()+": equal instants with different locations (a constant written with an offset against a stored UTC value) compare unequal; use Equal")
+			}
+		}
+		// uses of Equal count as sites
+		for _, call := range callsIn(fn) {
+			if cal, _ := calleeOf(call.Common()); cal != nil && cal.Name() == "Equal" && cal.Pkg() != nil && cal.Pkg().Path() == "time" {
+				n++
+			}
+		}
+	}
+	if bad == 0 {
+		c.OK("C01.TIMEEQ", "ast, boltz, objectz: datetime equality", "-", fmt.Sprintf("no ==/!= on time.Time values; %d comparisons go through time.Time.Equal", n))
+	}
+	c.Floor("C01.TIMEEQ", 1)
+}
+
+// ruleC01NotOutermost: when a comparison over a set function is typed, the set function is hoisted
+// on top of the typed comparison (MoveUpTree); a negation belongs on top of the set function, so what
+// is handed to MoveUpTree is never a NotExprNode.
+func ruleC01NotOutermost(c *Ctx) {
+	p := c.P
+	mut := p.Method("ast", "SetFunctionNode", "MoveUpTree")
+	notT := p.Named("ast", "NotExprNode")
+	n := 0
+	var hasNot func(v ssa.Value, depth int) bool
+	hasNot = func(v ssa.Value, depth int) bool {
+		if depth > 6 || v == nil {
+			return false
+		}
+		switch x := v.(type) {
+		case *ssa.MakeInterface:
+			return namedOf(x.X.Type()) == notT
+		case *ssa.ChangeInterface:
+			return hasNot(x.X, depth+1)
+		case *ssa.Phi:
+			for _, e := range x.Edges {
+				if hasNot(e, depth+1) {
+					return true
+				}
+			}
+		case *ssa.UnOp:
+			if al, ok := x.X.(*ssa.Alloc); ok {
+				for _, r := range *al.Referrers() {
+					if st, ok := r.(*ssa.Store); ok && st.Addr == ssa.Value(al) && hasNot(st.Val, depth+1) {
+						return true
+					}
+				}
+			}
+		}
+		return false
+	}
+	for _, fn := range c.prodFuncs("ast") {
+		for _, call := range callsIn(fn) {
+			if !isCallTo(call, mut) {
+				continue
+			}
+			n++
+			c.Analysed(FnName(fn))
+			arg := call.Common().Args[1]
+			c.Check(!hasNot(arg, 0), "C01.NOTOUTER", FnName(fn)+": MoveUpTree argument", p.Pos(call.Pos()), "the set function is hoisted over the plain typed comparison; a negation stays above the set function", "a negated comparison is handed to MoveUpTree: the NOT ends up inside the set function (anyOf(s) not in [...] would mean 'some element is not in the list')")
+		}
+	}
+	c.Floor("C01.NOTOUTER", 2)
+}
+
+
 
 // opConsts returns the BinaryOp constants by name.
 func opConsts(c *Ctx) map[string]int64 {
